@@ -20,6 +20,8 @@ func init() {
 }
 
 func runC25(w *World, r *Report) {
+	defer c25NoLossyTransform(w, r)
+
 	r.Rule("R-C25-1", "every source (phi leaf) of ValidatePassword's result is constant false or a comparison result of CompareHashAndPassword / ConstantTimeCompare; no constant true", 3)
 	r.Rule("R-C25-2", "each comparison takes one operand derived from the stored Password field of the record read from AuthService and the other from the presented password parameter", 2)
 	r.Rule("R-C25-3", "path-sensitive: with the edges 'has root permission' and 'has logon permission' removed, no consistent path reaches a return whose value can be true", 1)
@@ -295,5 +297,70 @@ func runC25(w *World, r *Report) {
 
 	if n == 0 {
 		r.Anchor("R-C25-5", "bcrypt.GenerateFromPassword call in HashPassword")
+	}
+}
+
+// c25NoLossyTransform: R-C25-6.  Credentials are compared byte for byte.  In ValidatePassword
+// neither the stored credential nor the presented password may pass through a string function
+// that can remove or change characters of the secret itself (cut-set trims, case folding, space
+// trimming, replacement).  Removing the fixed {…} wrapper of a legacy plaintext credential is done
+// by slicing exactly one character off each end, which the rule allows.
+func c25NoLossyTransform(w *World, r *Report) {
+	r.Rule("R-C25-6", "ValidatePassword applies no character-removing or character-changing string function (Trim*, ToLower/ToUpper, Replace*, Fields, Title) to the stored credential or to the presented password", 1)
+
+	ap := w.pkg("internal/server/auth")
+	if ap == nil {
+		return
+	}
+
+	fn := w.ssaFunc(ap, "ValidatePassword")
+	if fn == nil {
+		r.Anchor("R-C25-6", "auth.ValidatePassword")
+
+		return
+	}
+
+	lossy := map[string]bool{"strings.Trim": true, "strings.TrimLeft": true, "strings.TrimRight": true, "strings.TrimSpace": true, "strings.TrimFunc": true,
+		"strings.ToLower": true, "strings.ToUpper": true, "strings.Title": true, "strings.ToTitle": true, "strings.Replace": true, "strings.ReplaceAll": true,
+		"strings.Fields": true, "strings.Map": true, "strings.TrimPrefix": false, "strings.TrimSuffix": false}
+
+	isSecret := func(v ssa.Value) bool {
+		return derivesFrom(v, func(s ssa.Value) bool {
+			switch x := s.(type) {
+			case *ssa.Parameter:
+				return x.Name() == "pass"
+			case *ssa.FieldAddr:
+				return fieldName(x.X.Type(), x.Field) == "Password"
+			case *ssa.Field:
+				return fieldName(x.X.Type(), x.Field) == "Password"
+			}
+
+			return false
+		}, func(id string) bool { return strings.HasPrefix(id, "strings.") })
+	}
+
+	bad := ""
+
+	allInstrs(fn, func(in ssa.Instruction) {
+		c, ok := in.(*ssa.Call)
+		if !ok {
+			return
+		}
+
+		id := callID(c.Common())
+		if !lossy[id] || len(c.Call.Args) == 0 {
+			return
+		}
+
+		if isSecret(c.Call.Args[0]) {
+			bad = id + " at " + w.pos(in.Pos())
+		}
+	})
+
+	key := "auth.ValidatePassword|credentials are not transformed"
+	if bad != "" {
+		r.Violate("R-C25-6", key, w.pos(fn.Pos()), "a credential passes through "+bad+": characters that belong to the password (a brace, a blank, a letter's case) are removed or changed before the comparison, so a different password is accepted and the right one rejected")
+	} else {
+		r.Discharge("R-C25-6", key, w.pos(fn.Pos()), "")
 	}
 }
